@@ -11,9 +11,16 @@ package main
 import (
 	"encoding/json"
 	"fmt"
+	"os"
+	"runtime/debug"
+	"runtime/pprof"
 	"sort"
 	"strings"
+	"syscall"
 	"time"
+
+	"github.com/php-any/origami/data"
+	"github.com/php-any/origami/runtime"
 
 	"verif/engine/ev"
 	"verif/engine/pool"
@@ -34,8 +41,16 @@ var runs int64 // executions of the implementation in this process
 
 func observe(p Prog, seed int64) observation {
 	runs++
-	res := runner.Run(source(p, seed), runner.Opts{})
+	res := runner.Run(source(p, seed), runner.Opts{Setup: setupHost})
 	return parseObservation(res, sfxFor(seed))
+}
+
+// setupHost registers the embedder-provided Go function whose body panics (action rth): the
+// documented way Go code is exposed to scripts (docs/go-integration.md).
+func setupHost(vm data.VM) {
+	if rv, ok := vm.(*runtime.VM); ok {
+		rv.RegisterFunction("c05_host_fail", func() int { panic("c05 host function failure") })
+	}
 }
 
 func parseObservation(res runner.Result, sfx string) observation {
@@ -90,43 +105,18 @@ func tokMatch(exp, got string) bool {
 	return false
 }
 
-func countTok(toks []string, t string) int {
-	n := 0
-	for _, x := range toks {
-		if x == t {
-			n++
-		}
-	}
-	return n
-}
-
-// clauseOf names the part of the statement a run contradicts ("" = agrees with exp).
+// clauseOf names the part of the statement a run contradicts ("" = agrees with exp). It is
+// decided at the FIRST point where the observed marker trace leaves the expected one:
 //
-//	finally-skipped / finally-extra   a finally marker appears less / more often than required
-//	dispatch          a different handler (catch clause, or the top-level uncaught handler) got
-//	                  the object, or got it as a different class / message
+//	finally-skipped   the reference runs a finally block there and the implementation does not
+//	finally-extra     the implementation runs a finally block there and the reference does not
+//	                  (ran twice, or ran although its try was never entered)
+//	dispatch          a different handler (catch clause, or the top-level uncaught handler) gets
+//	                  the object there, or gets it as an object of another class / message
 //	path              any other difference in the marker trace (blocks entered / left)
-//	catchvar[...]     trace agrees but the catch variable is not the thrown object: the listed
-//	                  identity probes (cls, msg, same, inst) differ
+//	catchvar[...]     same trace, right class and message, but the catch variable is not the
+//	                  thrown object: the listed identity probes (same, inst) differ
 func clauseOf(exp expectation, got observation) string {
-	seen := map[string]bool{}
-	for _, t := range exp.Toks {
-		if strings.HasPrefix(t, "F") && !seen[t] {
-			seen[t] = true
-			e, g := countTok(exp.Toks, t), countTok(got.Toks, t)
-			if g < e {
-				return "finally-skipped"
-			}
-			if g > e {
-				return "finally-extra"
-			}
-		}
-	}
-	for _, t := range got.Toks {
-		if strings.HasPrefix(t, "F") && !seen[t] {
-			return "finally-extra"
-		}
-	}
 	n := len(exp.Toks)
 	if len(got.Toks) > n {
 		n = len(got.Toks)
@@ -142,7 +132,24 @@ func clauseOf(exp expectation, got observation) string {
 		if tokMatch(e, g) {
 			continue
 		}
-		if strings.HasPrefix(e, "C") || strings.HasPrefix(g, "C") || strings.HasPrefix(e, "end=uncaught") || strings.HasPrefix(g, "end=uncaught") {
+		isC := func(t string) bool { return strings.HasPrefix(t, "C") }
+		isU := func(t string) bool { return strings.HasPrefix(t, "end=uncaught") }
+		tryOf := func(t string) string { // "F2" -> "2", "C2.1" -> "2"
+			t = t[1:]
+			if i := strings.Index(t, "."); i >= 0 {
+				t = t[:i]
+			}
+			return t
+		}
+		switch {
+		case strings.HasPrefix(e, "F") && !(isC(g) && tryOf(g) == tryOf(e)):
+			// the reference runs try k's finally here; anything but "try k's catch ran instead" is a skipped finally
+			return "finally-skipped"
+		case isC(e), isC(g):
+			return "dispatch"
+		case strings.HasPrefix(g, "F"):
+			return "finally-extra"
+		case isU(e), isU(g):
 			return "dispatch"
 		}
 		return "path"
@@ -154,11 +161,8 @@ func clauseOf(exp expectation, got observation) string {
 	}
 	for i, e := range exp.Probes {
 		g := got.Probes[i]
-		if e.Cls != "*" && e.Cls != g.Cls {
-			bad["cls"] = true
-		}
-		if e.Msg != "*" && e.Msg != g.Msg {
-			bad["msg"] = true
+		if (e.Cls != "*" && e.Cls != g.Cls) || (e.Msg != "*" && e.Msg != g.Msg) {
+			return "dispatch"
 		}
 		if e.Same != "*" && e.Same != g.Same {
 			bad["same"] = true
@@ -212,6 +216,8 @@ func judge(p Prog, seed int64) (clause string, exp expectation, got observation)
 }
 
 // ---- reduction --------------------------------------------------------------------------------------
+
+var rtKinds = []string{"rt0", "rtm", "rth", "rtp"} // simplest first
 
 var typeRank = map[string]int{"Throwable": 0, "Exception": 1, "E1": 2, "E0": 3, "E2": 4, "I": 5}
 var clsRank = map[string]int{"E1": 0, "E0": 1, "E2": 2}
@@ -321,12 +327,45 @@ func candidates(p Prog) []Prog {
 					}
 				}
 			}
-			if len(path) > 0 {
-				// replace the nested try by its own body action, or by a marker
+			// move the action of a catch / finally body into the try body (one action fewer)
+			for i := -1; i < len(t.Catches); i++ {
+				var src Act
+				if i == -1 {
+					if t.Fin == nil {
+						continue
+					}
+					src = *t.Fin
+				} else {
+					src = t.Catches[i].Body
+				}
+				if src.K == "m" || t.Body.K == "try" {
+					continue
+				}
 				q := p.clone()
-				*at(&q, path) = t.Body.clone()
+				qt := at(&q, path).Try
+				qt.Body = src.clone()
+				if i == -1 {
+					*qt.Fin = Act{K: "m"}
+				} else {
+					qt.Catches[i].Body = Act{K: "m"}
+				}
 				add(q)
-				q = p.clone()
+			}
+			if len(path) > 0 {
+				// replace the nested try by one of its own child actions, or by a marker
+				kids := []Act{t.Body}
+				for _, c := range t.Catches {
+					kids = append(kids, c.Body)
+				}
+				if t.Fin != nil {
+					kids = append(kids, *t.Fin)
+				}
+				for _, k := range kids {
+					q := p.clone()
+					*at(&q, path) = k.clone()
+					add(q)
+				}
+				q := p.clone()
 				*at(&q, path) = Act{K: "m"}
 				add(q)
 			}
@@ -343,16 +382,17 @@ func candidates(p Prog) []Prog {
 			q := p.clone()
 			*at(&q, path) = Act{K: "throw", Cls: a.Cls}
 			add(q)
-		case "rtp", "rtm", "rt0":
+		case "rtp", "rth", "rtm", "rt0":
 			q := p.clone()
 			*at(&q, path) = Act{K: "throw", Cls: "E1"}
 			add(q)
-			for _, k := range []string{"rt0", "rtm"} {
-				if k < a.K && k != a.K {
-					q := p.clone()
-					*at(&q, path) = Act{K: k}
-					add(q)
+			for _, k := range rtKinds {
+				if k == a.K {
+					break
 				}
+				q := p.clone()
+				*at(&q, path) = Act{K: k}
+				add(q)
 			}
 		case "throw":
 			for _, cl := range []string{"E1", "E0"} {
@@ -419,10 +459,12 @@ type shardArg struct {
 	Seed  int64    `json:"seed"`
 	Excl  []string `json:"excl"`
 	Mask  string   `json:"mask"`
+	Until int64    `json:"until"` // unix seconds: stop enumerating after this (internal budget)
 }
 
 type rec struct {
 	Kind     string         `json:"kind"` // count | fail | sample
+	Expired  bool           `json:"expired,omitempty"`
 	N        int64          `json:"n,omitempty"`
 	Runs     int64          `json:"runs,omitempty"`
 	Excluded int64          `json:"excluded,omitempty"`
@@ -469,9 +511,14 @@ func g1Worker(w *pool.W, arg json.RawMessage) {
 	cov := map[string]bool{}
 	traces := map[string]bool{}
 	failed := map[string]int{}
+	expired := false
 	enumerate(b, sh.Fam, sh.Ctx, func(p Prog) {
 		idx++
-		if (idx-1)%sh.Mod != sh.Rem {
+		if (idx-1)%sh.Mod != sh.Rem || expired {
+			return
+		}
+		if n%64 == 0 && sh.Until > 0 && time.Now().Unix() > sh.Until {
+			expired = true
 			return
 		}
 		if excluded(p) {
@@ -524,7 +571,7 @@ func g1Worker(w *pool.W, arg json.RawMessage) {
 	for k := range cov {
 		cl = append(cl, k)
 	}
-	w.Emit(rec{Kind: "count", N: n, Runs: runs - startRuns, Excluded: excl, Cov: cl, Traces: len(traces), More: more, Fam: sh.Fam, Ctx: sh.Ctx})
+	w.Emit(rec{Kind: "count", N: n, Runs: runs - startRuns, Excluded: excl, Cov: cl, Traces: len(traces), More: more, Fam: sh.Fam, Ctx: sh.Ctx, Expired: expired})
 }
 
 // ---- main ---------------------------------------------------------------------------------------------
@@ -545,6 +592,16 @@ func baselines(c *ev.Check) (excl []string, mask string) {
 			}
 		}
 	}
+	// what the two Go-level triggers do outside any try (recorded, not judged)
+	for _, k := range []string{"rth", "rtp"} {
+		r := &render{sfx: sfxFor(c.Seed)}
+		r.act(nAct{K: k}, 0, "")
+		res := runner.Run(header(c.Seed, false)+r.sb.String()+"echo \"after;\";\n", runner.Opts{Setup: setupHost})
+		c.Set("outside_try_"+k, res.Kind+":"+res.PanicKey+res.Class)
+		if strings.Contains(res.Out, "after;") {
+			c.HarnessError("runtime-error action %s does not fail at all (output %q)", k, res.Out)
+		}
+	}
 	// identity probes on objects that were never thrown
 	sfx := sfxFor(c.Seed)
 	var sb strings.Builder
@@ -552,7 +609,7 @@ func baselines(c *ev.Check) (excl []string, mask string) {
 	for _, cls := range []string{"E0", "E1", "E2"} {
 		fmt.Fprintf(&sb, "$o = new %s%s(\"b\"); K%s::$last = $o; echo \"cls=\", get_class($o), \";msg=\", $o->getMessage(), \";same=\", ($o === K%s::$last) ? \"y\" : \"n\", \";inst=\", bits%s($o), \";\";\n", cls, sfx, sfx, sfx, sfx)
 	}
-	fmt.Fprintf(&sb, "$p = new E1%s(\"c\"); echo \"same=\", ($p === K%s::$last) ? \"y\" : \"n\", \";\";\n", sfx, sfx)
+	fmt.Fprintf(&sb, "$p = new E1%s(\"c\"); echo \"other=\", ($p === K%s::$last) ? \"y\" : \"n\", \";\";\n", sfx, sfx)
 	res := runner.Run(sb.String(), runner.Opts{})
 	o := parseObservation(res, sfx)
 	m := []byte("111111")
@@ -574,7 +631,7 @@ func baselines(c *ev.Check) (excl []string, mask string) {
 				}
 			}
 		}
-		if !strings.HasSuffix(res.Out, ";same=n;") {
+		if !strings.HasSuffix(res.Out, ";other=n;") {
 			ok = false
 		}
 	}
@@ -588,6 +645,7 @@ func baselines(c *ev.Check) (excl []string, mask string) {
 }
 
 func main() {
+	debug.SetGCPercent(400) // a fresh VM + std library per run is mostly garbage; trade memory for CPU
 	if pool.IsWorker() {
 		pool.Serve(map[string]pool.Handler{"g1": g1Worker})
 	}
@@ -601,7 +659,7 @@ func main() {
 		replay(c)
 		return
 	}
-	c.SetBudget(6*time.Minute, 40*time.Minute)
+	c.SetBudget(12*time.Minute, 45*time.Minute)
 	quick := c.Quick()
 	b := tierBounds(quick)
 
@@ -619,18 +677,66 @@ func main() {
 	if !quick {
 		mod = 24
 	}
+	budget := 12 * time.Minute
+	if !quick {
+		budget = 45 * time.Minute
+	}
+	until := time.Now().Add(budget).Unix()
+	if os.Getenv("C05_BENCH") != "" {
+		if pf := os.Getenv("C05_PROF"); pf != "" {
+			f, _ := os.Create(pf)
+			pprof.StartCPUProfile(f)
+			defer pprof.StopCPUProfile()
+		}
+		t0 := time.Now()
+		n := 0
+		enumerate(b, "d1", "func", func(p Prog) {
+			if n < 3000 {
+				observe(p, 0)
+				n++
+			}
+		})
+		var ru syscall.Rusage
+		syscall.Getrusage(syscall.RUSAGE_SELF, &ru)
+		cpu := time.Duration(ru.Utime.Nano() + ru.Stime.Nano())
+		fmt.Printf("observe: %v wall, %v cpu per run\n", time.Since(t0)/time.Duration(n), cpu/time.Duration(n))
+		t0 = time.Now()
+		n = 0
+		enumerate(b, "d1", "func", func(p Prog) {
+			if n < 3000 {
+				reference(p)
+				source(p, 0)
+				n++
+			}
+		})
+		fmt.Printf("reference+render: %v per program\n", time.Since(t0)/time.Duration(n))
+		return
+	}
+	if os.Getenv("C05_COUNT") != "" {
+		for _, fam := range families {
+			for _, ctx := range contexts {
+				n := 0
+				enumerate(b, fam, ctx, func(Prog) { n++ })
+				fmt.Printf("%s/%s %d\n", fam, ctx, n)
+			}
+		}
+		return
+	}
 	var shards []pool.Shard
 	for _, fam := range families {
 		if fam == "d3" && !b.D3 {
 			continue
 		}
 		for _, ctx := range contexts {
+			if !b.hasFamily(fam, ctx) {
+				continue
+			}
 			m := mod
-			if fam == "d2fin" && quick {
+			if (fam == "d2fin" || fam == "d1x") && quick {
 				m = 2
 			}
 			for r := 0; r < m; r++ {
-				shards = append(shards, pool.Shard{Kind: "g1", Arg: shardArg{Fam: fam, Ctx: ctx, Mod: m, Rem: r, Quick: quick, Seed: c.Seed, Excl: excl, Mask: mask}})
+				shards = append(shards, pool.Shard{Kind: "g1", Arg: shardArg{Fam: fam, Ctx: ctx, Mod: m, Rem: r, Quick: quick, Seed: c.Seed, Excl: excl, Mask: mask, Until: until}})
 			}
 		}
 	}
@@ -642,6 +748,9 @@ func main() {
 		json.Unmarshal(rb, &r)
 		switch r.Kind {
 		case "count":
+			if r.Expired {
+				c.NotExhaustive("internal wall-clock budget expired; the families were only partly enumerated (see g1_programs_by_family_context)")
+			}
 			total += r.N
 			execs += r.Runs
 			excluded += r.Excluded
@@ -686,7 +795,7 @@ func main() {
 
 	// vacuity: every exit path of the statement must have been driven through a finally, and
 	// every dispatch situation must have occurred
-	need := []string{"finally-on:fallthrough", "finally-on:throw", "finally-on:return", "finally-on:break", "finally-on:continue",
+	need := []string{"rt:rth", "finally-on:fallthrough", "finally-on:throw", "finally-on:return", "finally-on:break", "finally-on:continue",
 		"finally-overrides:throw->return", "finally-overrides:return->return", "dispatch:first", "dispatch:later", "dispatch:none", "rt:rtp", "rt:rt0"}
 	for _, k := range need {
 		if !cov[k] {
